@@ -168,25 +168,22 @@ AP_FUNCS = ["ldb_versions_apply", "builder_init", "builder_apply", "builder_save
 
 def apply_obls(prefix):
     out = []
-    cfg = [(1, 0, 0, "quick"), (1, 1, 0, "quick"), (1, 2, 0, "quick"), (0, 0, 0, "quick"), (0, 1, 0, "quick"), (0, 2, 0, "quick"),
-           (1, 0, 1, "quick")]
-    for first, shape, cf, tier in cfg:
-        known = "F5-apply-create-failure-null-destroy" if cf else None
-        name = "%s.versions-apply-%s-shape%d%s" % (prefix, "first" if first else "open", shape, "-create-fails-finding" if cf else "")
+    cfg = [(1, 0, "quick"), (1, 1, "quick"), (1, 2, "quick"), (0, 0, "quick"), (0, 1, "quick"), (0, 2, "quick")]
+    for first, shape, tier in cfg:
+        name = "%s.versions-apply-%s-shape%d" % (prefix, "first" if first else "open", shape)
         out.append(Obl(name, "vset/apply.c",
                        real=["dbformat.c", "util/comparator.c", "util/buffer.c", "util/slice.c", "util/options.c", "util/rbt.c"],
                        include_real=["version_set.c", "version_edit.c", "util/vector.c"], kit=KIT,
-                       defs={"VP_FIRST": first, "VP_SHAPE": shape, "VP_CREATE_FAILS": cf, "VP_SLAB": 32, "VP_VEC_CAP": 4}, unwind=9,
+                       defs={"VP_FIRST": first, "VP_SHAPE": shape, "VP_SLAB": 32, "VP_VEC_CAP": 4}, unwind=9,
                        unwindset={"memcmp.0": 10, "memcpy.0": 28, "strlen.0": 28, "vp_realloc_ptrs.0": 5},
-                       tier=tier, timeout=600, functions=AP_FUNCS, known=known, object_bits=10,
-                       desc=("FINDING F5: ldb_truncfile_create fails -> failure path hands NULL to ldb_wfile_destroy" if cf else
-                             "ldb_versions_apply ordering monitor (%s): edit completed with the set's counters; %sedit record, THEN sync%s with the mutex "
-                             "released; nothing installed before; install + log numbers only on success; on failure nothing installed%s"
-                             % ("first call" if first else "MANIFEST open", "new MANIFEST named by manifest_file_number, snapshot, THEN " if first else "",
-                                ", THEN set_current_file" if first else "",
-                                ", new MANIFEST closed+removed, descriptor_log/file reset" if first else ", open MANIFEST kept")),
+                       tier=tier, timeout=600, functions=AP_FUNCS, object_bits=10,
+                       desc="ldb_versions_apply ordering monitor (%s): edit completed with the set's counters; %sedit record, THEN sync%s with the mutex "
+                            "released; nothing installed before; install + log numbers only on success; on failure nothing installed%s"
+                            % ("first call" if first else "MANIFEST open", "new MANIFEST named by manifest_file_number, snapshot, THEN " if first else "",
+                               ", THEN set_current_file" if first else "",
+                               ", new MANIFEST closed+removed (never a NULL handle: F5), descriptor_log/file reset" if first else ", open MANIFEST kept"),
                        bounds="base shape %d (0: empty, 1: flush onto one file, 2: compaction delete+add), all 64-bit counters symbolic, every step "
-                              "below fails or not with any error code%s" % (shape, "" if cf else "; excluded: ldb_truncfile_create failure (finding F5)")))
+                              "below (name, create, snapshot, append, sync, set-current) fails or not with any error code" % shape))
     return out
 
 
